@@ -26,7 +26,8 @@ RULE = ("objects of every exported class from the supported grammars: ports (5 o
         " Round 4: rendered text assigned to the line setter of a live object of the same class (text and data as for a new object)."
         " Round 5: lower-case nested group names."
         " Rounds 6-7: renderings much longer than the input; the same configuration text under another platform first."
-        " Round 8: switch assigned on a live rendered object vs. an object built with it; sub-object edit then self-assignment of the text.")
+        " Round 8: switch assigned on a live rendered object vs. an object built with it; sub-object edit then self-assignment of the text."
+        " Round 10: the other protocol (tcp/udp) assigned to a live port that was already rendered (its own rendering is re-parsed under the new name table).")
 ASSUMPTIONS = ["native = a spelling the platform's own configuration uses (IOS: any/host/A W/object-group; NX-OS: any/A/len/A W/"
                "addrgroup); prefix notation on IOS is an accepted foreign spelling (two-step convergence)",
                "data() is compared without uuid; IPv4Network values compare by value"]
@@ -215,6 +216,27 @@ def execute(ctx, case: dict) -> None:
                               {"built": r, "switched": _line(alt)})
         except (ValueError, TypeError, AttributeError):
             pass
+    if native and cls_name == "Port" and kwargs.get("protocol") in ("tcp", "udp") and o2.operator:
+        # round 10 (C06-10A): the protocol assigned on a live port that was already rendered. The setter re-parses the object's
+        # own rendering under the new protocol: same numbers, names of the new table, and a fixed point like any other text
+        other = "udp" if kwargs["protocol"] == "tcp" else "tcp"
+        live = _build(cls_name, r, dict(kwargs))
+        _ = _line(live)
+        numbers = [int(i) for i in live.items]
+        try:
+            live.protocol = other
+        except Exception as ex:  # pylint: disable=broad-except
+            ctx.violation(case, "assigning the other protocol to a rendered live port raised: its own rendering was rejected",
+                          {"rendered": r, "protocol": other, "error": f"{type(ex).__name__}: {ex}"})
+        else:
+            ctx.count("protocol_assigned_on_rendered_port")
+            fresh = _build(cls_name, f"{live.operator} {' '.join(str(i) for i in numbers)}", dict(kwargs, protocol=other))
+            if [int(i) for i in live.items] != numbers or _line(live) != _line(fresh):
+                ctx.violation(case, "a rendered live port switched to the other protocol differs from one built with it",
+                              {"rendered": r, "protocol": other, "numbers": numbers, "live_items": list(live.items),
+                               "live": _line(live), "built": _line(fresh)})
+            elif _build(cls_name, _line(live), dict(kwargs, protocol=other)).line != _line(live):
+                ctx.violation(case, "text of a live port after a protocol switch is not a fixed point of the parser", _line(live))
     if native and cls_name == "Ace" and kwargs.get("type") != "standard" and " eq " in r:
         # ports removed through the sub-object, then the entry's own text assigned to it again: a re-parse like any other
         try:
